@@ -539,7 +539,8 @@ func pathsD(ps []pathD) []string {
 // ---------------------------------------------------------------- ACL / hop predicates
 
 var hpTexts = []string{"0", "1", "2", "0-0", "1-0", "1-1", "1-0:0:1", "2-ff00:0:110", "1-FF00:0:110", "1-ff00:0:110#1",
-	"1-1#1,2", "0-0#0", "1-1#0,2", "1-1#2,0", "2-1#1", "1-ff00:0:110#0,1", "0-1", "0-ff00:0:110#2", "2-0", "1-1#2"}
+	"1-1#1,2", "0-0#0", "1-1#0,2", "1-1#2,0", "2-1#1", "1-ff00:0:110#0,1", "0-1", "0-ff00:0:110#2", "2-0", "1-1#2",
+	"1-1#2,1", "1-ff00:0:110#1,2", "1-ff00:0:110#3,1", "2-1#2,3", "2-1#1,3", "1-1#3,2"}
 
 var hpBad = []string{"", "-", "1-", "-1", "1#2", "1-1-1", "1-1#1#2", "1-1#1,2,3", "65536-1", "1-0#1", "0-0#0,1", "0-0#0,0",
 	"1-1#18446744073709551615", "1-1#18446744073709551616", "1-1#,", "1-1#", "1-1#1,", "1-1#,1", "1,2-3", "1-1,2#3",
@@ -603,6 +604,77 @@ func entriesT(es []*pathpol.ACLEntry) string {
 		}
 		return vgen.Pair(vgen.B(bool(e.Action)), rule)
 	})
+}
+
+// ---------------------------------------------------------------- both directions over the same interfaces
+
+var dirIAs = []uint64{mkIA(1, 1), mkIA(1, asHex), mkIA(2, 1)}
+var otherIAs = []uint64{mkIA(1, 2), mkIA(2, asHex), mkIA(2, 2)}
+
+// dirPaths: paths that enter / leave AS x through interface ids 1..3 in every
+// combination (x as transit, as source and as destination AS), so that one
+// (IA, interface id) is an ingress interface in one path and an egress
+// interface in another path of the same list.
+func dirPaths(r *vgen.Rand, x uint64, n int) []pathD {
+	var ps []pathD
+	id := func() uint64 { return uint64(r.Range(1, 3)) }
+	for i := 0; i < n; i++ {
+		a, b := vgen.Pick(r, otherIAs...), vgen.Pick(r, otherIAs...)
+		p := pathD{id: i}
+		switch r.Intn(6) {
+		case 0: // x is the destination
+			p.ifs = []ifc{{a, id()}, {x, id()}}
+		case 1: // x is the source
+			p.ifs = []ifc{{x, id()}, {b, id()}}
+		case 2: // four hops, x twice
+			p.ifs = []ifc{{a, id()}, {x, id()}, {x, id()}, {b, id()}, {b, id()}, {x, id()}}
+		default:
+			p.ifs = []ifc{{a, id()}, {x, id()}, {x, id()}, {b, id()}}
+		}
+		p.src, p.dst = p.ifs[0].ia, p.ifs[len(p.ifs)-1].ia
+		ps = append(ps, p)
+	}
+	return ps
+}
+
+// genDirACL: entries with two different interface ids on AS x, so that the
+// verdict of an interface depends on the direction it is used in.
+func genDirACL(r *vgen.Rand, x uint64) aclGen {
+	var g aclGen
+	add := func(s string) {
+		e := &pathpol.ACLEntry{}
+		if err := e.LoadFromString(s); err != nil {
+			panic("runner: bad ACL entry " + s)
+		}
+		g.entries = append(g.entries, e)
+		g.texts = append(g.texts, s)
+	}
+	ia := addr.IA(x).String()
+	a := r.Range(1, 3)
+	b := a%3 + 1
+	if r.Bool() {
+		a, b = b, a
+	}
+	two := fmt.Sprintf("%s#%d,%d", ia, a, b)
+	switch r.Intn(4) {
+	case 0:
+		add("- " + two)
+		add("+")
+	case 1:
+		add("+ " + two)
+		add("- " + ia)
+		add("+")
+	case 2:
+		add(fmt.Sprintf("- %s#%d,0", ia, a))
+		add(fmt.Sprintf("+ %s#0,%d", ia, a))
+		add("- " + ia)
+		add("+ 0")
+	case 3:
+		add("+ " + two)
+		add(fmt.Sprintf("- %s#%d,%d", ia, b, a))
+		add(vgen.Pick(r, "+", "-"))
+	}
+	return g
 }
 
 // ---------------------------------------------------------------- policies
@@ -775,8 +847,17 @@ func main() {
 		implT := "None"
 		var kept []uint64
 		if err == nil {
-			kept = keptIDs(seq.Eval(stubs(paths)))
+			in := stubs(paths)
+			kept = keptIDs(seq.Eval(in))
 			implT = "(Some " + vgen.NList(kept) + ")"
+			// the caller's slice is untouched and a second call on it gives the same answer
+			same := true
+			for k, p := range in {
+				same = same && p.(*stub).id == paths[k].id
+			}
+			if again := keptIDs(seq.Eval(in)); !same || fmt.Sprint(again) != fmt.Sprint(kept) {
+				run.Violate(cur, "Sequence.Eval modified the caller's slice / is not repeatable", txt)
+			}
 		}
 		run.Tally(fmt.Sprintf("seq:parse=%v", err == nil))
 		if err == nil {
@@ -840,65 +921,123 @@ func main() {
 			map[string]any{"text": s, "ok": err == nil, "impl": obs})
 	}
 
-	// 3. ACLs
-	na := run.Count(180, 10000)
-	for i := 0; i < na; i++ {
-		r := rng.Fork(uint64(6000000 + i))
-		mode := vgen.Pick(r, 0, 0, 0, 0, 0, 1, 2) // 0 well-formed, 1 malformed via NewACL, 2 unvalidated literal
-		g := genACL(r, mode == 0)
-		paths := genPaths(r, nil, r.Range(5, 8))
-		if !run.Want() {
-			skip()
-			continue
-		}
-		var acl *pathpol.ACL
-		var err error
-		if mode == 2 {
-			acl = &pathpol.ACL{Entries: g.entries}
-		} else {
-			acl, err = pathpol.NewACL(g.entries...)
-		}
-		res := "AErr"
-		nontriv := false
-		var kept []uint64
-		if err == nil {
-			panicked, _ := vgen.Recover(func() { kept = keptIDs(acl.Eval(stubs(paths))) })
-			if panicked {
-				res = "APanic"
-			} else {
-				res = vgen.App("AKept", vgen.NList(kept))
-				nontriv = len(kept) > 0 && len(kept) < len(paths)
+	// intact reports whether a filter call left the caller's slice as it was
+	intact := func(in []snet.Path, ps []pathD) bool {
+		for i, p := range in {
+			if p.(*stub).id != ps[i].id {
+				return false
 			}
 		}
-		run.Tally(fmt.Sprintf("acl:mode%d:%s", mode, strings.SplitN(strings.Trim(res, "("), " ", 2)[0]))
-		add("acl", vgen.App("CAcl", entriesT(g.entries), vgen.B(mode != 2), pathsT(paths), res),
-			fmt.Sprint(g.texts, mode, pathsD(paths)), nontriv,
-			map[string]any{"entries": g.texts, "validated": mode != 2, "paths": pathsD(paths), "impl": res})
+		return true
+	}
+	// orders of one path set evaluated in separate calls: as generated, reversed, shuffled
+	orders := func(r *vgen.Rand, ps []pathD, n int) [][]pathD {
+		out := [][]pathD{ps}
+		if n > 1 {
+			rev := make([]pathD, len(ps))
+			for i, p := range ps {
+				rev[len(ps)-1-i] = p
+			}
+			out = append(out, rev)
+		}
+		for k := 2; k < n; k++ {
+			sh := append([]pathD(nil), ps...)
+			vgen.Shuffle(r, sh)
+			out = append(out, sh)
+		}
+		return out
 	}
 
-	// 4. policies
-	np := run.Count(160, 10000)
+	// 3. ACLs: every ACL is applied to whole lists of paths in one Eval call, in several orders;
+	// half of the path sets cross one AS in both directions over the same interface ids
+	na := run.Count(110, 6000)
+	for i := 0; i < na; i++ {
+		r := rng.Fork(uint64(6000000 + i))
+		mode := vgen.Pick(r, 0, 0, 0, 0, 0, 0, 1, 2) // 0 well-formed, 1 malformed via NewACL, 2 unvalidated literal
+		var g aclGen
+		var paths []pathD
+		kind := "acl"
+		if mode == 0 && r.Chance(1, 2) {
+			x := vgen.Pick(r, dirIAs...)
+			g = genDirACL(r, x)
+			paths = dirPaths(r, x, r.Range(5, 8))
+			kind = "acl-direction"
+		} else {
+			g = genACL(r, mode == 0)
+			paths = genPaths(r, nil, r.Range(5, 8))
+		}
+		nord := 1
+		if mode == 0 {
+			nord = 3
+		}
+		for oi, ps := range orders(r, paths, nord) {
+			if !run.Want() {
+				skip()
+				continue
+			}
+			var acl *pathpol.ACL
+			var err error
+			if mode == 2 {
+				acl = &pathpol.ACL{Entries: g.entries}
+			} else {
+				acl, err = pathpol.NewACL(g.entries...)
+			}
+			res := "AErr"
+			nontriv := false
+			var kept []uint64
+			if err == nil {
+				in := stubs(ps)
+				panicked, _ := vgen.Recover(func() { kept = keptIDs(acl.Eval(in)) })
+				if panicked {
+					res = "APanic"
+				} else {
+					res = vgen.App("AKept", vgen.NList(kept))
+					nontriv = len(kept) > 0 && len(kept) < len(ps)
+					if !intact(in, ps) {
+						run.Violate(cur, "ACL.Eval modified the caller's slice", g.texts)
+					}
+				}
+			}
+			run.Tally(fmt.Sprintf("%s:mode%d:%s", kind, mode, strings.SplitN(strings.Trim(res, "("), " ", 2)[0]))
+			add(kind, vgen.App("CAcl", entriesT(g.entries), vgen.B(mode != 2), pathsT(ps), res),
+				fmt.Sprint(g.texts, mode, pathsD(ps)), nontriv,
+				map[string]any{"entries": g.texts, "validated": mode != 2, "order": oi, "paths": pathsD(ps), "impl": res})
+		}
+	}
+
+	// 4. policies, each on the path list in two orders (separate Filter calls)
+	np := run.Count(100, 6000)
 	for i := 0; i < np; i++ {
 		r := rng.Fork(uint64(9000000 + i))
 		g := genPolicy(r, 0)
-		paths := genPaths(r, nil, r.Range(6, 9))
+		var paths []pathD
+		if r.Chance(1, 3) {
+			paths = dirPaths(r, vgen.Pick(r, dirIAs...), r.Range(6, 9))
+		} else {
+			paths = genPaths(r, nil, r.Range(6, 9))
+		}
 		if r.Chance(1, 3) { // duplicate fingerprints with different endpoints
 			d := paths[r.Intn(len(paths))]
 			d.id = len(paths)
 			d.src, d.dst = vgen.Pick(r, polIAs...), vgen.Pick(r, polIAs...)
 			paths = append(paths, d)
 		}
-		if !run.Want() {
-			skip()
-			continue
+		for oi, ps := range orders(r, paths, 2) {
+			if !run.Want() {
+				skip()
+				continue
+			}
+			in := stubs(ps)
+			kept := keptIDs(g.pol.Filter(in))
+			if !intact(in, ps) {
+				run.Violate(cur, "Policy.Filter modified the caller's slice", g.desc)
+			}
+			nontriv := len(kept) > 0 && len(kept) < len(ps)
+			run.Tally(fmt.Sprintf("policy:options=%d", len(g.pol.Options)))
+			desc := map[string]any{"policy": g.desc, "order": oi, "paths": pathsD(ps), "kept": kept}
+			add("policy", vgen.App("CPol", g.term, pathsT(ps), vgen.NList(kept)),
+				g.term+fmt.Sprint(pathsD(ps)), nontriv, desc)
 		}
-		kept := keptIDs(g.pol.Filter(stubs(paths)))
-		nontriv := len(kept) > 0 && len(kept) < len(paths)
-		run.Tally(fmt.Sprintf("policy:options=%d", len(g.pol.Options)))
-		g.desc["paths"] = pathsD(paths)
-		g.desc["kept"] = kept
-		add("policy", vgen.App("CPol", g.term, pathsT(paths), vgen.NList(kept)),
-			g.term+fmt.Sprint(pathsD(paths)), nontriv, g.desc)
 	}
 	run.Finish()
 }
